@@ -309,11 +309,13 @@ pub struct R<'a> {
     pub levels: Vec<Vec<isize>>,
     open: Vec<isize>,
     flow_parent: Vec<isize>,
+    /// the default form of a block mapping entry is the explicit one (`? k` / `: v`) instead of `k: v`
+    pub explicit_baseline: bool,
 }
 
 impl<'a> R<'a> {
     pub fn new(ch: &'a mut Ch) -> Self {
-        R { out: String::new(), ch, oneline: 0, marks: vec![], in_block_key: false, first_lines: vec![], lines: vec![], levels: vec![], open: vec![], flow_parent: vec![] }
+        R { out: String::new(), ch, oneline: 0, marks: vec![], in_block_key: false, first_lines: vec![], lines: vec![], levels: vec![], open: vec![], flow_parent: vec![], explicit_baseline: false }
     }
     fn col(&self) -> usize {
         self.out.rsplit('\n').next().unwrap().chars().count()
@@ -688,7 +690,7 @@ impl<'a> R<'a> {
                     }
                     let simple_key = !Self::is_block_coll(x) && !matches!(x.n, N::Sc(_, 3));
                     let key_empty = x.bare_null();
-                    if simple_key && self.ch.pick(2) == 0 {
+                    if simple_key && ((self.ch.pick(2) == 0) != self.explicit_baseline) {
                         if !key_empty {
                             self.oneline += 1;
                             self.in_block_key = matches!(x.n, N::Sc(..));
@@ -763,6 +765,10 @@ pub struct Rendering {
 
 /// Decorates and renders the abstract documents with the given choice source.
 pub fn render(ts: &[T], ch: &mut Ch) -> Rendering {
+    render_with(ts, ch, false)
+}
+/// `explicit_baseline`: block mapping entries are written `? k` / `: v` unless a choice says otherwise
+pub fn render_with(ts: &[T], ch: &mut Ch, explicit_baseline: bool) -> Rendering {
     let mut na = 1usize;
     let mut dts = vec![];
     for t in ts {
@@ -771,6 +777,7 @@ pub fn render(ts: &[T], ch: &mut Ch) -> Rendering {
     }
     let expect = expect_stream(&dts);
     let mut r = R::new(ch);
+    r.explicit_baseline = explicit_baseline;
     if r.ch.flag() {
         r.out.push_str("%YAML 1.2\n---");
         r.block_value(&dts[0], -1, false, false);
